@@ -285,6 +285,9 @@ theorem ninv_init (a' b : Config) (sc : Scripts) (st2 : St) (hcore : CoreEmpty s
   · intro act hact
     have : (generateNames a' b st2).acts = st2.acts := rfl
     rw [this, c6] at hact; cases hact
+  · intro act hact
+    have : (generateNames a' b st2).acts = st2.acts := rfl
+    rw [this, c6] at hact; cases hact
 
 /-- The second-compare relevant facts about the final device `d'` of a run: `nm` names the target
 ACLs, `R` are the target ACLs that have been equalised or transferred. -/
@@ -325,15 +328,13 @@ theorem unpaired_of_removed {a0 b : Config} (hnd : (a0.intfs.map (·.name)).Nodu
   have : ai = i := by rw [← hkk, ← hkk']
   exact hni (this ▸ hai)
 
-theorem after_of_core {a0 b : Config} {sc : Scripts} (hw : WF a0 b sc) {d1 : Dev} {σ1 : String → String → Status}
-    {π1 : List (Nat × Nat)} {d3 : Dev} {p : List Name} (hc : Core a0 b sc d1 σ1 π1 d3 p) :
-    After a0 b (strip d3) (st3Of a0 b sc).nameOf (st3Of a0 b sc).aReady := by
-  obtain ⟨e1, e2, e3, e4, e5⟩ := core_e2e hw hc
-  have hsem1 := hc.sem
+/-- The name invariant after the interface phase of a run. -/
+theorem ninv_st3 {a0 b : Config} {sc : Scripts} (hw : WF a0 b sc) {d0 d1 : Dev} {σ1 : String → String → Status}
+    {π1 : List (Nat × Nat)} {d3 : Dev} {p : List Name} (hc : Core a0 b sc d0 d1 σ1 π1 d3 p) :
+    NInv (envOf a0 b sc) (st2Of a0 b).aNeeded (st3Of a0 b sc) ∧
+    (∀ k, k < (aOf a0 b).intfs.length → ((aOf a0 b).intfs.getD k default).name ∈ b.intfs.map (·.name) →
+      k ∈ (st3Of a0 b sc).iNeeded) := by
   have hhas : ∀ n, (aOf a0 b).hasAcl n = a0.hasAcl n := fun n => by simp [Config.hasAcl, hc.aclsEq]
-  have hslot3 : ∀ x dir, slotOf d3 x dir = slotOf d1 x dir := by
-    intro x dir
-    simp only [slotOf, hc.intfs3]
   have hnd' : ((aOf a0 b).intfs.map (·.name)).Nodup := by
     obtain ⟨_, _, _, ⟨pI, hpI⟩, _⟩ := alignVRFs_spec a0 b {} ⟨rfl, rfl, rfl, rfl, rfl, rfl⟩
     show ((alignVRFs a0 b {}).2.intfs.map (·.name)).Nodup
@@ -351,7 +352,18 @@ theorem after_of_core {a0 b : Config} {sc : Scripts} (hw : WF a0 b sc) {d1 : Dev
       exact ⟨k1, fun bd hbd => (k2 bd hbd).1, fun bd hbd => (k2 bd hbd).2⟩
   obtain ⟨hninv, hineed⟩ := ninv_diffIntfs (e := envOf a0 b sc) hstatic hnd'
     (ninv_init (aOf a0 b) b sc (st2Of a0 b) hc.core2)
-  have hninv' : NInv (envOf a0 b sc) (st2Of a0 b).aNeeded (st3Of a0 b sc) := hninv
+  exact ⟨hninv, hineed⟩
+
+theorem after_of_core {a0 b : Config} {sc : Scripts} (hw : WF a0 b sc) {d1 : Dev} {σ1 : String → String → Status}
+    {π1 : List (Nat × Nat)} {d3 : Dev} {p : List Name} (hc : Core a0 b sc (ofConfig a0) d1 σ1 π1 d3 p) :
+    After a0 b (strip d3) (st3Of a0 b sc).nameOf (st3Of a0 b sc).aReady := by
+  obtain ⟨e1, e2, e3, e4, e5⟩ := core_e2e hw (reads_ofConfig a0) hc
+  have hsem1 := hc.sem
+  have hhas : ∀ n, (aOf a0 b).hasAcl n = a0.hasAcl n := fun n => by simp [Config.hasAcl, hc.aclsEq]
+  have hslot3 : ∀ x dir, slotOf d3 x dir = slotOf d1 x dir := by
+    intro x dir
+    simp only [slotOf, hc.intfs3]
+  obtain ⟨hninv', hineed⟩ := ninv_st3 hw hc
   -- the initial marks lie in the ACLs of interfaces without partner
   have hbound2 : NeededIn (unpairedAcls a0 b) (st2Of a0 b) := by
     have hbound1 : NeededIn (unpairedAcls a0 b) (alignVRFs a0 b {}).1 := by
@@ -683,20 +695,20 @@ theorem routes_char {a0 b : Config} {sc : Scripts} (hwf : WF a0 b sc) {Rs : List
     · exact Or.inl h1
     · exact Or.inr (by rw [← h3]; exact List.mem_map_of_mem hr')
 
-theorem filterMap_find_text (refs : List Route) (l : List String) (h : ∀ t ∈ l, ∃ r ∈ refs, r.text = t) :
-    (l.filterMap fun t => refs.find? fun r => r.text == t).map (·.text) = l := by
+theorem map_find_text (refs : List Route) (l : List String) :
+    (l.map fun t => (refs.find? fun r => r.text == t).getD ⟨t, "", "", 0⟩).map (·.text) = l := by
   induction l with
   | nil => rfl
   | cons t l ih =>
-    obtain ⟨r, hr, hrt⟩ := h t (List.mem_cons_self ..)
+    simp only [List.map_cons, ih]
     cases hf : refs.find? fun r => r.text == t with
-    | none =>
-      have := List.find?_eq_none.mp hf r hr
-      simp [hrt] at this
+    | none => rfl
     | some r' =>
       have ht' : r'.text = t := by simpa using List.find?_some hf
-      simp only [List.filterMap_cons, hf, List.map_cons, ht']
-      rw [ih (fun t' ht'' => h t' (List.mem_cons_of_mem _ ht''))]
+      simp [ht']
+
+theorem routes_reconf (a0 : Config) (refs : List Route) (d : Dev) : (reconf a0 refs d).routes.map (·.text) = d.routes :=
+  map_find_text refs d.routes
 
 theorem hasAcl_reconf (a0 : Config) (refs : List Route) (d : Dev) (n : Name) : (reconf a0 refs d).hasAcl n = hasAcl d n := by
   simp only [Config.hasAcl, reconf, hasAcl, List.any_map]
@@ -868,14 +880,7 @@ theorem settled_of_after {a0 b : Config} {sc : Scripts} (hw : WF a0 b sc) (hok :
     obtain ⟨bd0, j1, j2, _⟩ := K1 i hi hib bd hbd
     exact hA.notProt x.2 h1 i hi hib bd0 j1 (by rw [j2, hbdacl, h2])
   · -- route lines of the configuration read back
-    have : (reconf a0 refs d').routes.map (·.text) = d'.routes := by
-      apply filterMap_find_text
-      intro t ht
-      rcases rc2 t ht with k | k
-      · obtain ⟨r, hr, hrt⟩ := List.mem_map.mp k
-        exact ⟨r, by rw [hrefs]; exact List.mem_append_left _ hr, hrt⟩
-      · obtain ⟨r, hr, hrt⟩ := List.mem_map.mp k
-        exact ⟨r, by rw [hrefs]; exact List.mem_append_right _ hr, hrt⟩
+    have : (reconf a0 refs d').routes.map (·.text) = d'.routes := routes_reconf a0 refs d'
     rw [this]; exact hA.routesNd
   · intro rb hrb
     have hrbrefs : rb ∈ refs := by rw [hrefs]; exact List.mem_append_right _ hrb
@@ -888,7 +893,7 @@ theorem settled_of_after {a0 b : Config} {sc : Scripts} (hw : WF a0 b sc) (hok :
     | some ra =>
       have hrat : ra.text = rb.text := by simpa using List.find?_some hf
       have hramem : ra ∈ refs := List.mem_of_find?_eq_some hf
-      have hra2 : ra ∈ (reconf a0 refs d').routes := List.mem_filterMap.mpr ⟨rb.text, hin, hf⟩
+      have hra2 : ra ∈ (reconf a0 refs d').routes := List.mem_map.mpr ⟨rb.text, hin, by rw [hf]; rfl⟩
       refine ⟨ra, ?_, hrat⟩
       show ra ∈ (aOf (reconf a0 refs d') b).routes
       rw [hR2']
@@ -908,7 +913,21 @@ theorem settled_of_after {a0 b : Config} {sc : Scripts} (hw : WF a0 b sc) (hok :
       split at hra'
       · exact hra'
       · exact (List.mem_filter.mp hra').1
-    obtain ⟨t, ht, hf⟩ := List.mem_filterMap.mp hra2
+    obtain ⟨t, ht, hget⟩ := List.mem_map.mp hra2
+    have hf : (refs.find? fun r => r.text == t) = some ra := by
+      cases hf' : refs.find? fun r => r.text == t with
+      | some r' => rw [hf'] at hget; exact congrArg some hget
+      | none =>
+        exfalso
+        have hex : ∃ r ∈ refs, r.text = t := by
+          rcases rc2 t ht with k | k
+          · obtain ⟨r, hr, hrt⟩ := List.mem_map.mp k
+            exact ⟨r, by rw [hrefs]; exact List.mem_append_left _ hr, hrt⟩
+          · obtain ⟨r, hr, hrt⟩ := List.mem_map.mp k
+            exact ⟨r, by rw [hrefs]; exact List.mem_append_right _ hr, hrt⟩
+        obtain ⟨r, hr, hrt⟩ := hex
+        have := List.find?_eq_none.mp hf' r hr
+        simp [hrt] at this
     have hrat : ra.text = t := by simpa using List.find?_some hf
     have hramem : ra ∈ refs := List.mem_of_find?_eq_some hf
     by_cases hv : ra.vrf ∈ b.routes.map (·.vrf)
@@ -943,7 +962,7 @@ theorem F2_settled_after (a0 b : Config) (sc : Scripts) (hw : WF a0 b sc) (hok :
       ∀ sc2, (∀ p ∈ cmpPairs (aOf (reconf a0 (a0.routes ++ b.routes) d') b) b,
           quietLines ((reconf a0 (a0.routes ++ b.routes) d').lines p.1) (b.lines p.2) (lookupD sc2.acl p) = true) →
         settledB (reconf a0 (a0.routes ++ b.routes) d') b sc2 = true := by
-  obtain ⟨d1, σ1, π1, d3, p, hc⟩ := F2_core a0 b sc hw hok
+  obtain ⟨d1, σ1, π1, d3, p, hc⟩ := F2_core a0 b sc hw hok (ofConfig a0) (reads_ofConfig a0)
   have hA := after_of_core hw hc
   exact ⟨strip d3, _, _, hc.exec, hA, fun sc2 hq => settled_of_after hw hok hA sc2 hq⟩
 
